@@ -371,6 +371,12 @@ def r5_wrapped(prog, rep: Report, pf: PoolFacts):
                 c = ctx_e
                 if isinstance(c.func, ast.Attribute) and c.func.attr == pf.replacer.name and c.args and src(c.args[0]) == f.self_name:
                     yf = [y for s in n.body for y in ast.walk(s) if isinstance(y, ast.YieldFrom)]
+                    if len(yf) == 1 and isinstance(yf[0].value, ast.Name):
+                        # results = super().imap(data, chunk_size) (a generator object: nothing runs before it is iterated);
+                        # with replacer: yield from results
+                        bound = vflow.expand(yf[0].value)
+                        if isinstance(bound, ast.Call):
+                            yf[0].value = bound
                     if len(yf) == 1 and isinstance(yf[0].value, ast.Call) and isinstance(yf[0].value.func, ast.Name):
                         # plain_call = super().imap; yield from plain_call(data, chunk_size)
                         bound = vflow.expand(yf[0].value.func)
